@@ -492,7 +492,12 @@ func init() {
 		k.PSave = 3
 		k.PCall = 2
 		k.MaxWidth = 5
-		return gen.NewTG(t, k).Case()
+		ec := gen.NewTG(t, k).Case()
+		// segmented account names whose "source:destination" spellings coincide
+		if gen.Chance(t, "c07f.colliding", 12) {
+			ec.Rename(gen.CollidingNames(1))
+		}
+		return ec
 	}
 }
 
